@@ -696,7 +696,8 @@ def c03(rep, tier):
     # unset marks are reported
     errs = [ev for ev in gp.calls_to('GenState::err')]
     loopok = False
-    for st in walk_stmts(pop['body']):
+    from .genrules import unconditional_callees
+    for st in [x for fb in unconditional_callees(m, pop) for x in walk_stmts(fb['body'])]:
         if st['k'] == 'rangefor' and field_chain(st['range'])[1][-1:] == ['marks']:
             conds = [s2 for s2 in walk_stmts(st['body']) if s2['k'] == 'if']
             for c in conds:
@@ -837,17 +838,31 @@ def chain_check(rule, model, f, g, steps, inst_prefix):
     return ok
 
 
-def table_of(e):
-    """'line_info' / 'potential_breaks' / 'funcAddrs' ... when e is (an access into) that member"""
-    e = strip_casts(e)
+def table_of(e, m=None, f=None):
+    """'line_info' / 'potential_breaks' / 'funcAddrs' ... when e is (an access into) that member; with a model and a function,
+    single-definition locals (iterators from find(), references to mapped values) are looked through"""
+    e = strip_conv(strip_casts(e)) if e is not None else None
     seen = 0
-    while e is not None and seen < 6:
+    while e is not None and seen < 10:
         seen += 1
+        if e.get('k') == 'member' and e.get('name') in ('second', 'first') and e.get('base') is not None and \
+                ('pair<' in (strip_casts(e['base']).get('cty') or '') or 'iterator' in (strip_casts(e['base']).get('cty') or '').lower() or
+                 (strip_casts(e['base']).get('callee') or '').endswith(('operator->', 'operator*'))):
+            e = strip_conv(strip_casts(e['base']))
+            continue
         if e.get('k') == 'member':
             return e['name'], e
-        if e.get('k') == 'call' and e.get('obj') is not None and (e.get('callee') or '').split('::')[-1] in ('operator[]', 'at', 'find', 'operator->', 'operator*'):
-            e = strip_casts(e['obj'])
+        if e.get('k') == 'paren' or (e.get('k') == 'un' and e.get('op') == '*'):
+            e = strip_conv(strip_casts(e['e']))
             continue
+        if e.get('k') == 'call' and e.get('obj') is not None and (e.get('callee') or '').split('::')[-1] in ('operator[]', 'at', 'find', 'operator->', 'operator*'):
+            e = strip_conv(strip_casts(e['obj']))
+            continue
+        if e.get('k') == 'ref' and e.get('dk') == 'var' and m is not None and f is not None:
+            o = m.origin(f, e)
+            if o is not None and o is not e:
+                e = strip_conv(strip_copies(strip_casts(o)))
+                continue
         break
     return None, None
 
@@ -1009,7 +1024,7 @@ def c08(rep, tier):
             if e.get('obj') is None:
                 continue
             o = strip_casts(e['obj'])
-            tname, _ = table_of(o)
+            tname, _ = table_of(o, m, f)
             direct = field_chain(o)[1][-1:]
             if c == 'erase' and direct == ['line_info']:
                 li_er.append(ev)
@@ -1018,7 +1033,7 @@ def c08(rep, tier):
             elif c in ('pop_back', 'erase') and direct != ['potential_breaks']:
                 # element-level removal on the vector of one location
                 oo = m.origin(f, o)
-                if tname == 'potential_breaks' or table_of(oo)[0] == 'potential_breaks':
+                if tname == 'potential_breaks' or table_of(oo, m, f)[0] == 'potential_breaks':
                     pb_elem.append(ev)
         for ev in gg.calls():
             e = ev.e
@@ -1026,7 +1041,7 @@ def c08(rep, tier):
             if e.get('obj') is None and (e.get('callee') or '') in ('std::erase', 'std::erase_if') and e['args']:
                 a0 = strip_casts(e['args'][0])
                 oo = m.origin(f, a0)
-                if table_of(a0)[0] == 'potential_breaks' or table_of(oo)[0] == 'potential_breaks':
+                if table_of(a0, m, f)[0] == 'potential_breaks' or table_of(oo, m, f)[0] == 'potential_breaks':
                     pb_elem.append(ev)
         inst = '%s: pop of a breakpoint instruction' % f['q']
         why = []
@@ -1514,9 +1529,19 @@ def c07(rep, tier):
     F = rep.rule('C07.f', 'the stack map lists every non-temporary register by name; only variable allocation produces them', floor=3)
     pop = m.fn('GenState::popSymbols')
     okmap = False
-    for st in walk_stmts(pop['body']):
+    seen_loop = False
+    from .genrules import unconditional_callees
+    # the map may be built in a helper popSymbols always calls (makeStackMap(fgs)) or in an argument expression of it
+    cand_fns = unconditional_callees(m, pop)
+    for x in walk_all_exprs(pop['body']):
+        if x.get('k') == 'call' and x.get('callee_in_repo'):
+            hs = [y for y in m.all_fns() if y['q'] == x.get('callee') and y.get('body') is not None]
+            if len(hs) == 1 and hs[0] not in cand_fns and 'StackMap' in (hs[0].get('ret') or ''):
+                cand_fns.append(hs[0])
+    for st in [y for fb in cand_fns for y in walk_stmts(fb['body'])]:
         if st['k'] == 'for':
             bound = show(st['c'])
+            seen_loop = seen_loop or ('register_state' in bound and 'size' in bound)
             if 'register_state' in bound and 'size' in bound:
                 ifs = [s2 for s2 in walk_stmts(st['body']) if s2['k'] == 'if']
                 for i2 in ifs:
@@ -1526,7 +1551,10 @@ def c07(rep, tier):
                     tomap = [x for x in asg if 'map' in show(x.get('obj') or x.get('l')) and 'name' in show(x)]
                     if neg and tomap and i2.get('e') is None:
                         okmap = True
-    F.check(okmap, 'popSymbols: stack map', 'every register with !is_temp is mapped to its name', 'stack map construction not recognised / filtered differently', W(m, pop))
+    if not okmap and not seen_loop:
+        F.unknown('popSymbols: stack map', 'the loop over the register table that builds the stack map was not found')
+    else:
+        F.check(okmap, 'popSymbols: stack map', 'every register with !is_temp is mapped to its name', 'stack map construction filtered differently', W(m, pop))
     for f in m.all_fns():
         for e in walk_all_exprs(f['body']):
             if is_call(e, '::push_back') and e.get('obj') is not None and field_chain(e['obj'])[1][-1:] == ['register_state']:
